@@ -79,7 +79,7 @@ func runC09(c *fw.Ctx) {
 				c.Count("puts", 1)
 			} else {
 				c.Tracef("upd %s=%s/%d", wl.KeyStr(k), v, w)
-				err = t.Update(k, v, w)
+				err = wl.Upd(t, k, v, w)
 			}
 			if err != nil {
 				fail("Update/Put failed: %v", err)
@@ -102,7 +102,7 @@ func runC09(c *fw.Ctx) {
 			}
 			earlier[string(k)] = append(earlier[string(k)], m[string(k)])
 			c.Tracef("overwrite %s=%s/%d", wl.KeyStr(k), v, w)
-			if err := t.Update(k, v, w); err != nil {
+			if err := wl.Upd(t, k, v, w); err != nil {
 				fail("Update (overwrite) failed: %v", err)
 				return
 			}
@@ -129,7 +129,7 @@ func runC09(c *fw.Ctx) {
 				c.Count("deletes_via_Delete", 1)
 			} else {
 				c.Tracef("del %s", wl.KeyStr(k))
-				if err := t.Update(k, nil, 0); err != nil {
+				if err := wl.Upd(t, k, nil, 0); err != nil {
 					fail("delete of a live key failed: %v", err)
 					return
 				}
@@ -146,7 +146,7 @@ func runC09(c *fw.Ctx) {
 			}
 			c.Tracef("del-absent %s", wl.KeyStr(k))
 			wBefore := t.Weight()
-			err := t.Update(k, nil, 0)
+			err := wl.Upd(t, k, nil, 0)
 			if err == nil {
 				fail("delete of an absent key reported success")
 				return
